@@ -62,13 +62,13 @@ Lemma set_fstate_hash_tabs p new hh s s' : set_fstate_hash p new hh s = Ok s' ->
   nodes s' = nodes s /\ steps s' = steps s /\ shash s' = shash s.
 Proof.
   unfold set_fstate_hash. destruct (find_file p s); [|intros H; inversion H; auto].
-  destruct (_ && _); [discriminate|]. destruct (_ && _); [discriminate|]. intros H. inversion H. auto.
+  intros H. guards H. inversion H. auto.
 Qed.
 Lemma set_sstate_tabs x new d s s' : set_sstate x new d s = Ok s' ->
   nodes s' = nodes s /\ files s' = files s /\ shash s' = shash s.
 Proof.
   unfold set_sstate. destruct (find_step x s); [|intros H; inversion H; auto].
-  destruct (_ && _); [discriminate|]. intros H. inversion H. auto.
+  intros H. guards H. inversion H. auto.
 Qed.
 
 (* ---- state propagation never touches a RUNNING step -------------------------------------- *)
@@ -221,14 +221,12 @@ Proof. intros H. apply (Kn_K (KRoot, [])); [eapply Kn_node_detach; exact H | int
 Lemma Kn_node_reattach k c s s' : node_reattach k c s = Ok s' -> Kn k s s'.
 Proof.
   unfold node_reattach. destruct (find_node k s) as [n|]; [|discriminate]. destruct (find_node c s) as [cn|]; [|discriminate].
-  destruct (negb (ndet n)); [discriminate|]. destruct (key_eqb c k); [discriminate|].
-  destruct (negb (creator_kind_ok (fst k) (fst c))); [discriminate|].
-  intros H. apply bind_ok in H. destruct H as [s2 [H2 H]]. inversion H. subst s'. clear H.
+  intros H. guards H. apply bind_ok in H. destruct H as [s2 [H2 H]]. inversion H. subst s'. clear H.
   set (s1 := upd_node k (fun n0 => mkNode (nk n0) (Some c) (ndet cn)) s) in *.
   assert (K1 : Kn k s s1) by (apply Kn_upd_node; [reflexivity | left; reflexivity]).
   assert (K2 : Kn k s1 s2).
   { destruct (ncre n) as [oc|]; [|inversion H2; apply Kn_refl].
-    destruct (negb (is_detached oc s)); [discriminate|]. eapply Kn_after_lost_product. exact H2. }
+    guards H2. eapply Kn_after_lost_product. exact H2. }
   eapply Kn_trans; [exact K1 | eapply Kn_trans; [exact K2 | apply Kn_set_detached_rec]].
 Qed.
 
@@ -246,7 +244,7 @@ Lemma set_fstate_hash_nb p new hh s s' : set_fstate_hash p new hh s = Ok s' ->
   (new = FBuilt -> builtf p s) -> forall g, builtf g s' -> builtf g s.
 Proof.
   unfold set_fstate_hash. destruct (find_file p s) as [r0|] eqn:E0; [|intros H; inversion H; auto].
-  destruct (_ && _); [discriminate|]. destruct (_ && _); [discriminate|]. intros H Hn. inversion H. subst s'. clear H.
+  intros H Hn. guards H. inversion H. subst s'. clear H.
   intros g. unfold builtf. rewrite fstate_of_upd_file; [|reflexivity].
   destruct (find_file g s) as [r|] eqn:Eg; [|unfold fstate_of; rewrite Eg; auto].
   destruct (str_eqb (fl r) p) eqn:Ep; [|unfold fstate_of; rewrite Eg; auto].
@@ -259,7 +257,7 @@ Lemma set_fstate_hash_result p new hh s s' : set_fstate_hash p new hh s = Ok s' 
   find_file p s <> None -> fstate_of p s' = Some new.
 Proof.
   unfold set_fstate_hash. destruct (find_file p s) as [r0|] eqn:E0; [|intros _ C; contradiction].
-  destruct (_ && _); [discriminate|]. destruct (_ && _); [discriminate|]. intros H _. inversion H. subst s'.
+  intros H _. guards H. inversion H. subst s'.
   rewrite fstate_of_upd_file; [|reflexivity]. rewrite E0. unfold find_file in E0. apply find_some in E0.
   destruct E0 as [_ E0]. rewrite E0. reflexivity.
 Qed.
@@ -360,12 +358,12 @@ Proof.
   unfold create. intros H Harg. apply bind_ok in H. destruct H as [u [_ H]]. apply bind_ok in H. destruct H as [s1 [H1 H]].
   assert (N1 : Kn k s s1).
   { destruct (find_node k s) as [n|].
-    - destruct (negb (ndet n)); [discriminate|]. apply bind_ok in H1. destruct H1 as [s2 [H2 H1]].
+    - guards H1. apply bind_ok in H1. destruct H1 as [s2 [H2 H1]].
       match type of H2 with context [upd_node k ?F s] => set (sa := upd_node k F s) in * end.
       assert (Ka : Kn k s sa) by (apply Kn_upd_node; [reflexivity | left; reflexivity]).
       assert (Kb : Kn k sa s2).
       { destruct (ncre n) as [oc|]; [|inversion H2; apply Kn_refl].
-        destruct (negb (is_detached oc s)); [discriminate|]. eapply Kn_after_lost_product. exact H2. }
+        guards H2. eapply Kn_after_lost_product. exact H2. }
       assert (Kc : Kn k s2 (del_all_sources k s2)) by (unfold del_all_sources, del_deps_where; apply Kn_set_deps).
       assert (Kd : Kn k (del_all_sources k s2) s1).
       { revert H1. apply (Kn_foldM k). intros a b c _. apply Kn_node_detach. }
@@ -391,7 +389,7 @@ Qed.
 
 Lemma declare_static_files_K c paths s s' : declare_static_files c paths s = Ok s' -> K s s'.
 Proof.
-  unfold declare_static_files. destruct (negb _); [discriminate|]. intros H. apply bind_ok in H. destruct H as [todo [_ H]].
+  unfold declare_static_files. intros H. guards H. apply bind_ok in H. destruct H as [todo [_ H]].
   revert H. apply K_foldM. intros a b d _. apply declare_file_K.
 Qed.
 
@@ -402,11 +400,10 @@ Proof. apply K_tables; auto. Qed.
 
 Lemma add_dep_K a b dyn s s' : add_dep a b dyn s = Ok s' -> K s s'.
 Proof.
-  unfold add_dep. destruct (has_dep a b s); [discriminate|]. destruct (negb _); [discriminate|].
-  intros H. inversion H. apply K_set_deps.
+  unfold add_dep. intros H. guards H. inversion H. apply K_set_deps.
 Qed.
 Lemma add_output_edge_K st0 f dyn s s' : add_output_edge st0 f dyn s = Ok s' -> K s s'.
-Proof. unfold add_output_edge. destruct (would_cycle _ _ s); [discriminate|]. apply add_dep_K. Qed.
+Proof. unfold add_output_edge. intros H. guards H. eapply add_dep_K. exact H. Qed.
 
 Lemma add_env_K st0 name dyn rep s : K s (add_env st0 name dyn rep s).
 Proof. unfold add_env. destruct (existsb _ _); [destruct rep; [apply K_set_envs | apply K_refl] | apply K_set_envs]. Qed.
@@ -425,7 +422,7 @@ Proof.
       + destruct (fstate_of f s) as [[]|]; try discriminate; inversion Hx; apply K_refl.
       + apply create_K in Hx; [exact Hx | split; [reflexivity | discriminate]].
     - apply create_K in Hx; [exact Hx | split; [reflexivity | discriminate]]. }
-  destruct (_ && _); [discriminate|]. inversion H. subst. exact Kx.
+  guards H. inversion H. subst. exact Kx.
 Qed.
 
 Lemma supply_files_K st0 paths rn dyn s s' : supply_files st0 paths rn dyn s = Ok s' -> K s s'.
@@ -437,7 +434,7 @@ Proof.
     apply bind_ok in Hr. destruct Hr as [acc1 [Ha Hb]]. apply bind_ok in Ha. destruct Ha as [[sx bx] [Hx Ha]].
     inversion Ha. subst acc1. clear Ha. apply IH in Hb. cbn [fst] in Hb.
     eapply K_trans; [eapply resolve_supply_file_K; exact Hx | exact Hb]. }
-  cbv zeta in H. destruct (match snd r with [] => false | _ => _ end); [discriminate|].
+  cbv zeta in H. guards H.
   eapply K_trans; [exact Kr|]. revert H. apply K_foldM. intros a b c _. apply add_dep_K.
 Qed.
 
@@ -452,7 +449,7 @@ Lemma define_step_new_K cre lab inp env out vol nd s s' :
   define_step_new cre lab inp env out vol nd s = Ok s' -> lab <> l -> K s s'.
 Proof.
   unfold define_step_new. intros H Hne. apply bind_ok in H. destruct H as [u1 [_ H]].
-  apply bind_ok in H. destruct H as [u2 [_ H]]. destruct (existsb _ out); [discriminate|].
+  apply bind_ok in H. destruct H as [u2 [_ H]]. guards H.
   apply bind_ok in H. destruct H as [s1 [H1 H]]. apply bind_ok in H. destruct H as [s2 [H2 H]].
   cbv zeta in H. apply bind_ok in H. destruct H as [s4 [H4 H5]].
   eapply K_trans; [eapply create_K; [exact H1 | split; [reflexivity | exact Hne]]|].
@@ -476,8 +473,7 @@ Proof. intros HF. apply K_tables; auto. rewrite sstate_of_upd_step_keep; auto. Q
 Lemma define_step_K cre lab inp env out vol nd s s' :
   define_step cre lab inp env out vol nd s = Ok s' -> lab <> l -> K s s'.
 Proof.
-  unfold define_step. intros H Hne. destruct (negb _); [discriminate|]. destruct (_ && _); [discriminate|].
-  destruct (key_eqb cre (KStep, lab)); [discriminate|].
+  unfold define_step. intros H Hne. guards H.
   destruct (find_node (KStep, lab) s) as [n|]; [|eapply define_step_new_K; eassumption].
   destruct (ndet n && can_recycle lab inp env out vol s).
   - apply bind_ok in H. destruct H as [s1 [H1 H]].
@@ -487,15 +483,15 @@ Proof.
     assert (Kc : K s2 s').
     { destruct (sstate_of lab s2) as [[]|]; try (inversion H; subst; apply K_refl). eapply K_mark_step_pending. exact H. }
     eapply K_trans; [exact Ka | eapply K_trans; [exact Kb | exact Kc]].
-  - destruct (negb (ndet n)); [discriminate|]. eapply define_step_new_K; eassumption.
+  - guards H. eapply define_step_new_K; eassumption.
 Qed.
 
 Lemma amend_step_K lab inp env out vol s s' : amend_step lab inp env out vol s = Ok s' -> K s s'.
 Proof.
-  unfold amend_step. destruct (negb _); [discriminate|]. intros H.
+  unfold amend_step. intros H. guards H.
   apply bind_ok in H. destruct H as [s1 [H1 H]]. cbv zeta in H.
   apply bind_ok in H. destruct H as [o' [_ H]]. apply bind_ok in H. destruct H as [v' [_ H]].
-  destruct (existsb _ o'); [discriminate|]. apply bind_ok in H. destruct H as [s3 [H3 H4]].
+  guards H. apply bind_ok in H. destruct H as [s3 [H3 H4]].
   eapply K_trans; [eapply supply_files_K; exact H1|].
   eapply K_trans; [apply fold_add_env_K|].
   eapply K_trans; [eapply declare_edge_fold_K; exact H3 | eapply declare_edge_fold_K; exact H4].
@@ -549,7 +545,7 @@ Lemma set_fstate_hash_other p new hh s s' g : set_fstate_hash p new hh s = Ok s'
   fstate_of g s' = fstate_of g s.
 Proof.
   unfold set_fstate_hash. destruct (find_file p s); [|intros H; inversion H; reflexivity].
-  destruct (_ && _); [discriminate|]. destruct (_ && _); [discriminate|]. intros H Hne. inversion H. subst s'.
+  intros H Hne. guards H. inversion H. subst s'.
   rewrite fstate_of_upd_file; [|reflexivity]. unfold fstate_of. destruct (find_file g s) as [r|] eqn:Eg; [|reflexivity].
   destruct (str_eqb (fl r) p) eqn:Ep; [|reflexivity]. exfalso. apply Hne.
   unfold find_file in Eg. apply find_some in Eg. destruct Eg as [_ Eg]. apply str_eqb_eq in Eg. apply str_eqb_eq in Ep. congruence.
@@ -715,7 +711,7 @@ Lemma mark_completed_Kw lab ok wd s s'
  : mark_completed lab ok wd s = Ok s' -> lab <> l ->
   nodup_by key_eqb (map nk (nodes s)) = true -> Kw s s'.
 Proof.
-  unfold mark_completed. intros H Hne Hnd. destruct (negb _); [discriminate|]. destruct ok.
+  unfold mark_completed. intros H Hne Hnd. guards H. destruct ok.
   - apply bind_ok in H. destruct H as [s1 [H1 H]]. apply bind_ok in H. destruct H as [s2 [H2 H]].
     inversion H. subst s'. clear H.
     pose proof (K_set_sstate_other _ _ _ _ _ H1 Hne) as K1.
@@ -842,10 +838,10 @@ Proof.
     eapply K_set_sstate_other; [exact H|]. eapply neq_of_states; [exact Hp | exact Hr | discriminate].
   - (* mark_step_pending *) apply Hkeep. intros y _. apply K_Kw. eapply K_mark_step_pending. exact H.
   - (* delete_detached *) subst started. intros y [].
-  - (* hold *) apply Hkeep. intros y _. apply K_Kw. unfold hold in H. destruct (negb _); [discriminate|].
+  - (* hold *) apply Hkeep. intros y _. apply K_Kw. unfold hold in H. guards H.
     inversion H. apply upd_step_K. intros r. split; reflexivity.
   - (* release *) apply Hkeep. intros y _. apply K_Kw. unfold release in H. destruct (find_step label s); [|discriminate].
-    destruct (_ =? _); [discriminate|]. inversion H. apply upd_step_K. intros r. split; reflexivity.
+    guards H. inversion H. apply upd_step_K. intros r. split; reflexivity.
   - (* reset_interrupted *) subst started. intros y [].
 Qed.
 
